@@ -9,6 +9,8 @@ import (
 	"testing"
 
 	"github.com/gittuf/gittuf/internal/policy"
+	policyopts "github.com/gittuf/gittuf/internal/policy/options/policy"
+	"github.com/gittuf/gittuf/internal/tuf"
 	kit "github.com/gittuf/gittuf/internal/verifkit"
 	"github.com/gittuf/gittuf/pkg/rsl"
 	"pgregory.net/rapid"
@@ -445,6 +447,10 @@ func runC02(t *testing.T, s *kit.Session, c c02Case) *kit.Failure {
 	lastPol := policyEvents[len(policyEvents)-1]
 	modes = append(modes, mode{name: "mergeable", chainTo: lastPol, self: map[int]bool{lastPol: true}})
 	modes = append(modes, mode{name: "load-current", chainTo: lastPol, self: map[int]bool{lastPol: true}})
+	// the caller pins the initial root of trust: with the key that signed the first
+	// root the verdict is that of load-current; with a key that did not, refusal
+	modes = append(modes, mode{name: "load-pinned-good", chainTo: lastPol, self: map[int]bool{lastPol: true}})
+	modes = append(modes, mode{name: "load-pinned-bad", chainTo: lastPol, self: map[int]bool{lastPol: true}})
 
 	check := func(b *kit.Built) *kit.Failure {
 		results := map[string]error{}
@@ -464,8 +470,21 @@ func runC02(t *testing.T, s *kit.Session, c c02Case) *kit.Failure {
 				_, err = policy.NewPolicyVerifier(b.Store).VerifyMergeable(ctx, "refs/heads/scratch", "refs/heads/feature")
 			case "load-current":
 				_, err = policy.LoadCurrentState(ctx, b.Store, policy.PolicyRef)
+			case "load-pinned-good", "load-pinned-bad":
+				first := &w.Policies[w.Events[policyEvents[0]].Policy]
+				var pin []tuf.Principal
+				for _, k := range first.RootSigners {
+					pin = append(pin, kit.Key(k).V02())
+				}
+				if m.name == "load-pinned-bad" {
+					pin = append(pin, kit.Key(wgUnknownKey).V02()) // never signed the first root
+				}
+				_, err = policy.LoadCurrentState(ctx, b.Store, policy.PolicyRef, policyopts.WithInitialRootPrincipals(pin))
 			}
 			v := c02Expect(&w, policyEvents, m.chainTo, m.self)
+			if m.name == "load-pinned-bad" {
+				v = kit.Verdict{Kind: "REJECT", Why: "the pinned initial root principals did not all sign the first root of trust"}
+			}
 			results[m.name], verdicts[m.name] = err, v
 			switch v.Kind {
 			case "REJECT":
@@ -516,6 +535,6 @@ func TestC02(t *testing.T) {
 		kit.DoReplay(s, t, rf, run)
 		return
 	}
-	s.SetRule("rapid: chains of 2-5 policy states, each successor produced from its predecessor by 1-2 of 23 mutation operators (add/rotate root principals, raise the root threshold, sign the root with old / new-only / foreign / no keys, re-sign or unsign the primary rule file, bump/lower root, primary and delegated versions, add (well or badly signed) / drop / orphan delegated files, replace one delegated file by another in one step, redefine a principal id inside a delegated file, change the rule for main), written with raw commits plus a policy entry (what anyone with push access can record); 0-2 authorised pushes to main after every state. Oracle: the validity conditions (a)-(e) of the property evaluated on the abstract states; each of VerifyRefFull, VerifyRef, VerifyRefFromEntry, VerifyMergeable (on an unprotected ref) and LoadCurrentState must reject when a state it depends on breaks a condition and accept when all hold. Non-trivial: some mode's dependency is broken, or the root is rotated/extended")
+	s.SetRule("rapid: chains of 2-5 policy states, each successor produced from its predecessor by 1-2 of 23 mutation operators (add/rotate root principals, raise the root threshold, sign the root with old / new-only / foreign / no keys, re-sign or unsign the primary rule file, bump/lower root, primary and delegated versions, add (well or badly signed) / drop / orphan delegated files, replace one delegated file by another in one step, redefine a principal id inside a delegated file, change the rule for main), written with raw commits plus a policy entry (what anyone with push access can record); 0-2 authorised pushes to main after every state. Oracle: the validity conditions (a)-(e) of the property evaluated on the abstract states; each of VerifyRefFull, VerifyRef, VerifyRefFromEntry, VerifyMergeable (on an unprotected ref), LoadCurrentState and LoadCurrentState with the initial root pinned by the caller (to the key that signed the first root: same verdict; to a set containing a key that did not: refused) must reject when a state it depends on breaks a condition and accept when all hold. Non-trivial: some mode's dependency is broken, or the root is rotated/extended")
 	kit.Campaign(s, t, "chains", "chain", s.Budget(10_000, 300_000), genC02, run)
 }
